@@ -28,6 +28,7 @@ class RunSpec:
         self.fluid_kwargs = fluid_kwargs or {}
         self.cell_map = cell_map
         self.havoc_xform = None
+        self.pre_tag = None          # symbol family of earlier calls (None: one family per call)
         self.x_xform = None
         self.name_map = None
         self.signs = None           # unknown key "kind|name" -> -1 for sign-flipped coordinates
@@ -61,17 +62,32 @@ def _run(rs, names_out):
                         if ENG.witness is not None:
                             ENG.witness.setdefault(nm, names_out[nm])
                     net[tbl]["mdot_kg_per_s"] = vals
-        for kw in rs.pre_calls:
-            H.CTX.sym_tag, H.CTX.xtag = "@first", "@first"
+        for ci, kw in enumerate(rs.pre_calls):
+            kw = dict(kw)
+            fail = kw.pop("_fail", False)
+            sol = kw.pop("_sol_vec_from_pit", False)
+            tag = ("@c%d" % ci if len(rs.pre_calls) > 1 else "@first") if rs.pre_tag is None else rs.pre_tag
+            H.CTX.sym_tag, H.CTX.xtag = tag, tag
+            H.CTX.force_fail = bool(fail)
+            stubs.CTX.sys_base = len(stubs.CTX.systems)
             try:
                 pp.pipeflow(net, **kw)
+            except Exception as e:     # a failed earlier call is part of the history
+                if not expected_exc(e):
+                    raise
             finally:
                 H.CTX.sym_tag, H.CTX.xtag = "", ""
+                H.CTX.force_fail = False
         for tbl, col in saved.items():
             net[tbl]["mdot_kg_per_s"] = col
     n_pre = len(stubs.CTX.systems)
     stubs.CTX.sys_base = n_pre
-    pp.pipeflow(net, **rs.kw)
+    kw = dict(rs.kw)
+    if kw.pop("_sol_vec_from_pit", False):
+        from pandapipes.idx_node import PINIT
+        from pandapipes.idx_branch import MDOTINIT
+        kw["sol_vec"] = np.concatenate((net["_pit"]["node"][:, PINIT], net["_pit"]["branch"][:, MDOTINIT]))
+    pp.pipeflow(net, **kw)
     return net, n_pre
 
 
